@@ -83,7 +83,14 @@ struct CpcUnionFam {
     Cpc s(static_cast<uint8_t>(r.chance(0.6) ? (r.coin() ? c.lg_k1 : c.lg_k2) : r.range(4, 11)), c.seed, A(scratch));
     feed(s, c, r);
     if (r.coin()) { o.update(s); xcount("cpc_union.merge_ref"); }
-    else { o.update(std::move(s)); xcount("cpc_union.merge_move"); }
+    else {
+      o.update(std::move(s)); xcount("cpc_union.merge_move");
+      if (r.coin()) {   // the consumed sketch must remain assignable and usable
+        Cpc live(static_cast<uint8_t>(r.coin() ? c.lg_k1 : r.range(4, 11)), r.coin() ? c.seed : c.seed2, A(scratch));
+        feed(live, c, r);
+        reuse_consumed_operand(s, live, r, [](const Cpc& x) { return cpc_readout(x); }, [&](Cpc& x) { feed(x, c, r); (void)x.get_estimate(); });
+      }
+    }
   }
   static std::string readout(const Obj& o, const Cfg&) { Cpc res = o.get_result(); return cpc_readout(res); }
   static void query(const Obj& o, const Cfg&, Rng&) { Cpc res = o.get_result(); (void)res.get_estimate(); }
